@@ -13,12 +13,18 @@
 (*   err  a dropped closing brace / an empty statement / an unregistered         *)
 (*        function at any position yields its documented class                   *)
 (*   any  the model is total on every text over {a { } \ " space}                *)
+(* WsInit (a run of its own): groups ws / wserr - each of the 25 Unicode          *)
+(* White_Space characters as the only separator and padding, three patterns per  *)
+(* character, rt and err laws - and idx - written integers around 2^31, 2^32,     *)
+(* 2^63, 2^64 and multiples, leading zeros, minus signs, up to 26 digits, as a    *)
+(* statement, between text, as argument and inside a quoted sub-template.        *)
 EXTENDS ExprSyntaxCases
 
 VARIABLE c
 
 \* lv 0: group header, 1: (group, sub-key) header, 2: one case
 Init == c \in {[lv |-> 0, g |-> g, k |-> 0, x |-> <<>>] : g \in Groups}
+WsInit == c \in {[lv |-> 0, g |-> g, k |-> 0, x |-> <<>>] : g \in GroupsWs}
 Next == \/ c.lv = 0 /\ \E k \in Subs(c.g) : c' = [lv |-> 1, g |-> c.g, k |-> k, x |-> <<>>]
         \/ c.lv = 1 /\ \E x \in Cases(c.g, c.k) : c' = [lv |-> 2, g |-> c.g, k |-> 0, x |-> x]
 LawOK == c.lv < 2 \/ Law(c.g, c.x)
